@@ -2,8 +2,6 @@
 //@include ../common/tm_contract.rs
 // R2: the thread-locals of matching/text.rs become fields of a second parameter (they are independent of word.rs's)
 pub struct TlsText { pub RMATCHES: Vec<Option<WordMatch>>, pub QMATCHES: Vec<Option<WordMatch>> }
-// words are short enough for the gate facts even when two of them are joined
-pub open spec fn text_small(t: &TextRef) -> bool { forall|k: int| 0 <= k < t.words@.len() ==> (#[trigger] t.words@[k]).slice.1 - t.words@[k].slice.0 < 0x8_0000 }
 // `v` is the view of word k of text t
 pub open spec fn view_of(v: &WordView, t: &TextRef, k: int) -> bool {
     0 <= k < t.words@.len() && v.offset == k && v.slice == t.words@[k].slice && v.stem == t.words@[k].stem && v.pos == t.words@[k].pos && v.fin == t.words@[k].fin
